@@ -73,8 +73,9 @@ the round counter and is wrong on big-endian targets only (not in the configurat
 The first ten were written by me while building the rules, twelve by a sub-agent asked for plausible refactorings in the
 areas the term-based rules cover (helper extraction, loop forms, renamed locals, correct `clone_from` / `new_checked`
 overrides, iterator forms), three more target specific anchors (a renamed `sub_bytes`, a `zeroize` wipe of a temporary, comment / blank lines
-that shift every line number).
-They found three false alarms, all repaired by making the rule semantic rather than by loosening it: C19 did not know
+that shift every line number), and two more probe shape rules (the token test bound to a local; an element-wise wipe loop
+in `Drop`, which found a fourth false alarm, in C16, repaired by an interpretation fall-back).
+They found false alarms, all repaired by making the rule semantic rather than by loosening it: C19 did not know
 the `debug_struct(..).finish_non_exhaustive()` builder, C14 W required the callee set of `salted_expand_key` to be exact
 (a helper extraction tripped it; it is transitive now and P became a term rule), and C03 F reported every feature-gated
 difference in MIR (a wipe of a temporary is now decided by comparing result terms).  For the benign patches the checks
